@@ -391,7 +391,14 @@ func c01RunCase(t *testing.T, k c01Knobs, seed int64) c01Obs {
 		empty := pid.mailbox.IsEmpty()
 		if obs.JudgeLoss || (!empty && st == "idle") {
 			time.Sleep(100 * time.Millisecond)
-			if p2 := pending(); p2 == p {
+			// structural part: no worker in a turn and no sender inside the
+			// enqueue-and-schedule pair (a slow goroutine is not a lost message)
+			inflight, _ := vfDispatchInFlight()
+			for w := 0; inflight > 0 && w < 2000; w++ {
+				time.Sleep(5 * time.Millisecond)
+				inflight, _ = vfDispatchInFlight()
+			}
+			if p2 := pending(); p2 == p && inflight == 0 {
 				obs.Stuck = fmt.Sprintf("%d accepted messages not handled; actor running=%v state=%s mailboxEmpty=%v parked=%d global=%d", p, pid.IsRunning(), vfSchedStateName(pid), pid.mailbox.IsEmpty(), sys.dispatcher.readyQueue.parkedCount(), sys.dispatcher.readyQueue.globalLen())
 				for i := range accepted {
 					if accepted[i].Load() && led.handled[i].Load() == 0 && len(obs.Lost) < 5 {
